@@ -1013,6 +1013,8 @@ type vGen struct {
 	// postLeft > 0: the gossiper was just restarted on a cold store; bias
 	// towards re-gossiped / duplicate / superseded messages
 	postLeft int
+	// stepNow: wall clock (unix seconds) recorded for the step being generated
+	stepNow uint32
 	r     *vrng
 	c     *vCase
 	nk    []*btcec.PrivateKey
@@ -1060,17 +1062,21 @@ func (g *vGen) setup() {
 			(g.kind == "restart" && r.intn(2) == 0) {
 			d.envKind = "good"
 		}
-		d.value = []int64{1000, 500, 499, 501, 100000}[r.intn(5)]
+		// funding output value (= channel capacity): around the fixed 500000 msat
+		// max-htlc of plain updates, tiny, zero and the whole money supply
+		d.value = []int64{1000, 500, 499, 501, 100000, 1000, 500, 1, 0,
+			2_100_000_000_000_000}[r.intn(10)]
 		h := int64(100 + i)
 		d.scid = lnwire.ShortChannelID{BlockHeight: uint32(h), TxIndex: 1, TxPosition: 0}
 		_, good, _ := input.GenFundingPkScript(
 			g.bk[d.b[0]].PubKey().SerializeCompressed(),
-			g.bk[d.b[1]].PubKey().SerializeCompressed(), d.value,
+			g.bk[d.b[1]].PubKey().SerializeCompressed(), 1,
 		)
 		_, other, _ := input.GenFundingPkScript(
 			g.bk[(d.b[0]+1)%4].PubKey().SerializeCompressed(),
-			g.bk[(d.b[1]+2)%4].PubKey().SerializeCompressed(), d.value,
+			g.bk[(d.b[1]+2)%4].PubKey().SerializeCompressed(), 1,
 		)
+		good.Value, other.Value = d.value, d.value
 		outs := [][]*wire.TxOut{{good, other}}
 		st := map[[2]int]int{}
 		kind := vBlkPresent
@@ -1485,13 +1491,163 @@ func (g *vGen) postRestart() (lnwire.Message, string) {
 			return vClone(cus[r.intn(len(cus))]), "cu_duplicate"
 		}
 		return g.validCA(r.intn(nch)), "ca_regossip"
-	case w < 78:
+	case w < 70:
 		return g.straddleCU(r.intn(nch), uint8(r.intn(2)))
-	case w < 90:
+	case w < 84:
+		return g.boundaryCU(r.intn(nch), uint8(r.intn(2)))
+	case w < 92:
 		return g.validCU(r.intn(nch), uint8(r.intn(2)))
 	default:
 		return g.validNA(r.intn(4))
 	}
+}
+
+// freshTs returns a timestamp strictly newer than everything generated so far
+// for the slot (and records it).
+func (g *vGen) freshTs(slot [2]int) uint32 {
+	ts := g.cuTs[slot] + 1 + uint32(g.r.intn(20))
+	if g.cuTs[slot] == 0 {
+		ts = g.base + uint32(g.r.intn(1000))
+	}
+	g.cuTs[slot] = ts
+	return ts
+}
+
+// boundaryCU: a properly signed update by the right node whose ONE interesting
+// field sits at (or one off) a comparison of the update validation:
+//   max_htlc vs capacity in MILLIsatoshi (cap-1, cap, cap+1, cap+500, cap+999,
+//   cap+1000), max_htlc vs min_htlc (min-1, min, min+1), max_htlc = 0, the
+//   message-flag bit gating max_htlc, channel-flag bits around the direction
+//   bit, timestamp vs the STORED timestamp of its direction (-1, 0, +1),
+//   timestamp vs now + prune expiry (future skew), zero timestamp.
+func (g *vGen) boundaryCU(i int, dir uint8) (*lnwire.ChannelUpdate1, string) {
+	r := g.r
+	d := g.chans[i]
+	slot := [2]int{i, int(dir)}
+	signer := g.nk[d.n[dir]]
+	capM := uint64(d.value) * 1000
+	u := vMakeCU(d.scid, signer, dir, 1, uint32(r.intn(1000)))
+	tag := ""
+	w := r.intn(20)
+	switch {
+	case w < 8: // max_htlc against the capacity, in msat
+		u.Timestamp = g.freshTs(slot)
+		u.HtlcMinimumMsat = lnwire.MilliSatoshi(r.intn(2))
+		var opts []uint64
+		if capM == 0 {
+			opts = []uint64{1, 2, 1000, 1 << 62, ^uint64(0)}
+		} else {
+			opts = []uint64{capM - 1, capM, capM + 1, capM + 500, capM + 999, capM + 1000,
+				capM + 1, capM + 999, capM}
+		}
+		k := r.intn(len(opts))
+		u.HtlcMaximumMsat = lnwire.MilliSatoshi(opts[k])
+		tag = fmt.Sprintf("cu_b_maxcap%d", k)
+	case w < 11: // max_htlc against min_htlc
+		u.Timestamp = g.freshTs(slot)
+		m := uint64(1000)
+		if capM != 0 && capM < 1001 {
+			m = 1
+		}
+		k := r.intn(4)
+		u.HtlcMinimumMsat = lnwire.MilliSatoshi(m)
+		u.HtlcMaximumMsat = lnwire.MilliSatoshi([]uint64{m - 1, m, m + 1, 0}[k])
+		if k == 3 {
+			u.HtlcMinimumMsat = 0
+		}
+		tag = fmt.Sprintf("cu_b_maxmin%d", k)
+	case w < 13: // message flags: bit 0 gates max_htlc
+		u.Timestamp = g.freshTs(slot)
+		if capM != 0 && capM < uint64(u.HtlcMaximumMsat) {
+			u.HtlcMinimumMsat, u.HtlcMaximumMsat = 0, lnwire.MilliSatoshi(capM)
+		}
+		mf := []uint8{0, 2, 3, 0xfe, 0xff, 1}[r.intn(6)]
+		u.MessageFlags = lnwire.ChanUpdateMsgFlags(mf)
+		tag = fmt.Sprintf("cu_b_msgflags%d", mf)
+	case w < 15: // channel flags: other bits next to the direction bit
+		u.Timestamp = g.freshTs(slot)
+		if capM != 0 && capM < uint64(u.HtlcMaximumMsat) {
+			u.HtlcMinimumMsat, u.HtlcMaximumMsat = 0, lnwire.MilliSatoshi(capM)
+		}
+		cf := []uint8{2, 4, 0x80, 0xfe, 6}[r.intn(5)] | dir
+		u.ChannelFlags = lnwire.ChanUpdateChanFlags(cf)
+		tag = fmt.Sprintf("cu_b_chanflags%d", cf)
+	case w < 18: // timestamp against the stored one of this direction
+		if capM != 0 && capM < uint64(u.HtlcMaximumMsat) {
+			u.HtlcMinimumMsat, u.HtlcMaximumMsat = 0, lnwire.MilliSatoshi(capM)
+		}
+		_, p1, p2, err := g.c.f.builder.GetChannelByID(d.scid)
+		own := p1
+		if dir == 1 {
+			own = p2
+		}
+		if err != nil || own == nil {
+			u.Timestamp = []uint32{1, 2, g.freshTs(slot)}[r.intn(3)]
+			tag = "cu_b_ts_first"
+		} else {
+			st := uint32(own.LastUpdate.Unix())
+			k := r.intn(3)
+			u.Timestamp = st - 1 + uint32(k)
+			if u.Timestamp > g.cuTs[slot] {
+				g.cuTs[slot] = u.Timestamp
+			}
+			tag = fmt.Sprintf("cu_b_ts_stored%+d", k-1)
+		}
+	case w < 19: // future skew: now + prune expiry
+		if capM != 0 && capM < uint64(u.HtlcMaximumMsat) {
+			u.HtlcMinimumMsat, u.HtlcMaximumMsat = 0, lnwire.MilliSatoshi(capM)
+		}
+		k := []int64{-1, 0, 45}[r.intn(3)]
+		u.Timestamp = uint32(int64(g.stepNow) + int64(vPruneExpiry/time.Second) + k)
+		if k <= 0 && u.Timestamp > g.cuTs[slot] {
+			g.cuTs[slot] = u.Timestamp
+		}
+		tag = fmt.Sprintf("cu_b_skew%+d", k)
+	default:
+		u.Timestamp = 0
+		tag = "cu_b_ts_zero"
+	}
+	u.Signature = vSign(signer, u)
+	return u, tag
+}
+
+// boundaryNA: properly signed node announcement with the timestamp at the
+// stored one -1 / 0 / +1 (a shell node stores 0, so 0, 1, 2).
+func (g *vGen) boundaryNA(n int) (*lnwire.NodeAnnouncement1, string) {
+	pub := vPub33(g.nk[n])
+	last, exists, err := g.c.f.db.HasV1Node(context.Background(), pub)
+	st := uint32(0)
+	if err == nil && exists && last.Unix() > 0 {
+		st = uint32(last.Unix())
+	}
+	k := g.r.intn(3)
+	ts := st + uint32(k)
+	if st > 0 {
+		ts = st - 1 + uint32(k)
+	}
+	if ts > g.naTs[n] {
+		g.naTs[n] = ts
+	}
+	return vMakeNA(g.nk[n], ts, g.r.intn(200)), fmt.Sprintf("na_b_ts_stored%d_%d", boolInt(st > 0), k)
+}
+
+func boolInt(b bool) int {
+	if b {
+		return 1
+	}
+	return 0
+}
+
+// boundaryCA: a fully re-signed announcement whose scid block height sits at
+// the best-height (premature) boundary or at the alias-range boundary.
+func (g *vGen) boundaryCA(i int) (*lnwire.ChannelAnnouncement1, string) {
+	d := g.chans[i]
+	a := g.validCA(i)
+	hs := []uint32{vBestHeight - 1, vBestHeight, vBestHeight + 1, vAliasStart - 1, vAliasStart}
+	k := g.r.intn(len(hs))
+	a.ShortChannelID.BlockHeight = hs[k]
+	vSignCA(a, g.nk[d.n[0]], g.nk[d.n[1]], g.bk[d.b[0]], g.bk[d.b[1]])
+	return a, fmt.Sprintf("ca_b_height%d", k)
 }
 
 // byteCorrupt flips one bit of the serialised payload of a valid message; nil
@@ -1529,7 +1685,7 @@ func (g *vGen) next(step int, kind string) (lnwire.Message, string) {
 		w := r.intn(100)
 		if tries > 40 {
 			// the pending-update rule keeps refusing: send something harmless
-			w = 36 + r.intn(14)
+			w = 30 + r.intn(10)
 			kind = "mixed"
 		}
 		if len(g.script) > 0 && tries == 0 {
@@ -1550,19 +1706,25 @@ func (g *vGen) next(step int, kind string) (lnwire.Message, string) {
 			m, tag = g.validCA(step), "ca_valid"
 		} else {
 			switch {
-			case w < 14:
+			case w < 12:
 				m, tag = g.validCA(r.intn(nch)), "ca_valid"
-			case w < 36:
+			case w < 30:
 				m, tag = g.validCU(r.intn(nch), uint8(r.intn(2)))
-			case w < 50:
+			case w < 40:
 				m, tag = g.validNA(r.intn(4))
-			case w < 58 && len(g.sent) > 0:
+			case w < 46 && len(g.sent) > 0:
 				m, tag = vClone(g.sent[r.intn(len(g.sent))]), "duplicate"
-			case w < 70:
+			case w < 62:
+				m, tag = g.boundaryCU(r.intn(nch), uint8(r.intn(2)))
+			case w < 67:
+				m, tag = g.boundaryNA(r.intn(4))
+			case w < 71:
+				m, tag = g.boundaryCA(r.intn(nch))
+			case w < 80:
 				m, tag = g.corruptCA(r.intn(nch))
-			case w < 84:
+			case w < 90:
 				m, tag = g.corruptCU(r.intn(nch))
-			case w < 92:
+			case w < 95:
 				m, tag = g.corruptNA(r.intn(4))
 			default:
 				var src lnwire.Message
@@ -1724,6 +1886,8 @@ func vRunCase(t *testing.T, r *vrng, ci int) map[string]any {
 			g.pending = map[uint64]map[uint8]string{}
 			g.postLeft = 6
 		}
+		now := time.Now().Unix()
+		g.stepNow = uint32(now)
 		m, tag := g.next(si, kind)
 		if g.postLeft > 0 {
 			g.postLeft--
@@ -1736,7 +1900,6 @@ func vRunCase(t *testing.T, r *vrng, ci int) map[string]any {
 		peer := peers[pi]
 		desc, orc := c.describe(m)
 		desc["cid"] = vMsgHash(m)
-		now := time.Now().Unix()
 
 		fut := f.g.ProcessRemoteAnnouncement(ctx, m, peer)
 		var inCache func() bool
